@@ -44,6 +44,8 @@ def gen_pace(rng, has_header):
         pace['gaps'] = [rng.choice([0, 0, 1, 2]) for _ in range(rng.choice([1, 2, 3]))]
     if mode == 'query':
         pace['header_first'] = False
+        # only queries that read the whole input: a bounded query legitimately stops before later warnings / errors are met
+        pace['query'] = rng.choice(['select *', 'select *', 'select a1, NR', 'select * where NR != 2', 'select distinct a1'])
     return pace
 
 
@@ -76,6 +78,16 @@ def generate(rng, tier, idx):
     sc['text'] = text
     sc['mode'] = 'stream'
     sc['pace'] = gen_pace(rng, sc['has_header'])
+    if rng.random() < 0.12:
+        # two readers alive at once: rbql.query with a JOIN table that is itself a planned stream
+        sc['pace'] = {'mode': 'query', 'gaps': [], 'header_first': False, 'query': rng.choice(['select a1, b1 left join B on a1 == b1', 'select * join B on a1 == b1', 'select a1 left join B on NR == bNR'])}
+        jt = c12.gen_text(rng, rng.choice([2, 4, 6, 9]))
+        if not any(ord(ch) > 127 for ch in jt) and rng.random() < 0.7:
+            jt += rng.choice(['é', '€', '\U0001F600'])
+        sc['join_text'] = jt
+        jn = len(jt.encode('utf-8'))
+        sc['join_partitions'] = sorted(set(tuple(c12.random_composition(rng, jn)) for _ in range(5)) | {tuple([1] * jn), (jn,)})
+        sc['join_partitions'] = [list(p) for p in sc['join_partitions']]
     sc['timing_pattern'] = [rng.choice(TIMINGS) for _ in range(rng.choice([1, 1, 2, 3, 4]))]
     sc['hwm'] = rng.choice([None, None, 1, 2, 16])
     nb = len(text.encode('utf-8'))
@@ -105,10 +117,15 @@ def plan_for(data, pieces, pattern):
     return plan
 
 
-def view(resp):
+def view(resp, two_readers=False):
     if resp['outcome'] == ['ok']:
         return ['ok', resp['records'], resp['header'], resp['warnings']]
-    return resp['outcome']
+    oc = resp['outcome']
+    if two_readers and oc[0] == 'err':
+        # with two tables several things can be wrong at once (quoting in either table, header modes); which one is reported
+        # first depends on delivery order, and each is a correct rejection: compare the error class only
+        return ['err', oc[1], 'Unable to decode' if 'decode' in oc[2] else '<any other message>']
+    return oc
 
 
 def iter_partitions(sc, nb):
@@ -125,14 +142,18 @@ def execute(sc):
     data = sc['text'].encode('utf-8')
     nb = len(data)
     res = {'verdict': 'ok', 'oracle': None, 'counters': counters, 'evals': 0, 'nontrivial': 0, 'steps': 0}
-    key_sc = {k: v for k, v in sc.items() if k not in ('partitions', 'kind', 'pieces')}
+    key_sc = {k: v for k, v in sc.items() if k not in ('partitions', 'kind', 'pieces', 'join_pieces')}
     res['key'] = core.key64(key_sc)
     tmp_dir = fsseam.work_dir()
     common = base_req(sc)
     common['tmp_dir'] = tmp_dir
+    jdata = sc['join_text'].encode('utf-8') if sc.get('join_text') is not None else None
+    if jdata is not None:
+        common['join_hex'] = jdata.hex()
     bulk = jsbridge.call(dict(common, mode='bulk', hex=data.hex()))
     res['evals'] += 1
-    ref = view(bulk)
+    two = sc.get('join_text') is not None
+    ref = view(bulk, two)
     interesting = c12.content_is_interesting(sc)
     if bulk.get('unhandled_rejections'):
         bump(counters, 'probe.unhandled_rejection_bulk')
@@ -154,8 +175,12 @@ def execute(sc):
     parts = iter_partitions(sc, nb)
     requests = []
     pattern = sc['timing_pattern']
-    for pieces in parts:
-        requests.append({'mode': 'stream', 'plan': plan_for(data, pieces, pattern)})
+    for pi, pieces in enumerate(parts):
+        r = {'mode': 'stream', 'plan': plan_for(data, pieces, pattern)}
+        if jdata is not None:
+            jp = sc['join_partitions'][pi % len(sc['join_partitions'])] if sc['kind'] != 'single' else sc['join_pieces']
+            r['join_plan'] = plan_for(jdata, jp, pattern[::-1])
+        requests.append(r)
     outs = []
     B = 64
     for i in range(0, len(requests), B):
@@ -165,7 +190,7 @@ def execute(sc):
     for pieces, r in zip(parts, outs):
         res['evals'] += 1
         res['steps'] += r['counters']['turn'] + r['counters']['read_calls']
-        out = view(r)
+        out = view(r, two)
         digest_parts.append(out[0])
         bs = core.boundaries(pieces)
         if any((data[b] & 0xC0) == 0x80 for b in bs):
@@ -179,20 +204,32 @@ def execute(sc):
         if r.get('unhandled_rejections'):
             bump(counters, 'probe.unhandled_rejection_stream')
         if out != ref:
-            case = {k: v for k, v in sc.items() if k != 'partitions'}
+            case = {k: v for k, v in sc.items() if k not in ('partitions', 'join_partitions')}
             case['kind'] = 'single'
             case['pieces'] = list(pieces)
+            if jdata is not None:
+                case['join_pieces'] = sc['join_partitions'][parts.index(pieces) % len(sc['join_partitions'])] if sc['kind'] != 'single' else sc['join_pieces']
             res.update(verdict='violation', oracle=classify(out), detail=diff_detail(ref, out, pieces), case=case)
             break
     for t in pattern:
         bump(counters, 'sched.timing_' + t)
     bump(counters, 'sched.pace_' + sc['pace']['mode'])
+    if jdata is not None:
+        bump(counters, 'sched.two_readers_join_stream')
     if sc['text'][:1] == '﻿':
         bump(counters, 'probe.bom_present')
-    if ref[0] == 'ok' and sc['policy'] == 'quoted_rfc' and any('\n' in f for rec in ref[1] for f in rec):
+    if ref[0] == 'ok' and sc['policy'] == 'quoted_rfc' and any(isinstance(f, str) and '\n' in f for rec in ref[1] for f in rec):
         bump(counters, 'probe.rfc_record_spans_lines')
     res['digest'] = core.digest(digest_parts)
     return res
+
+
+def confirm(case, result):
+    """A violation must survive a fresh Node process: the driver is reused between cases, so state that the code under test
+    keeps at module level could otherwise make a case depend on the cases before it (not replayable, hence not reportable)."""
+    jsbridge.stop()
+    again = execute(case)
+    return again['verdict'] == 'violation' and again['oracle'] == result['oracle']
 
 
 def classify(out):
